@@ -1,0 +1,21 @@
+//go:build verif
+
+package encoding
+
+// Verification hooks for property C10 (/verif): access to the unexported bucket header of
+// Uint64Map. Nothing here changes behaviour; the file is only compiled with -tags verif.
+
+// VerifC10HeaderMarshal returns the bytes uint64MapBucketHeader.Marshal writes.
+func VerifC10HeaderMarshal(id uint64, tag Tag, length int, layout *Uint64MapLayout) []byte {
+	var buffer [maxUint64MapBucketHeaderLength]byte
+	header := uint64MapBucketHeader{ID: id, Tag: tag, Length: length}
+	n := header.Marshal(buffer[0:], layout)
+	return append([]byte{}, buffer[0:n]...)
+}
+
+// VerifC10HeaderUnmarshal runs uint64MapBucketHeader.Unmarshal for the given bucket.
+func VerifC10HeaderUnmarshal(buffer []byte, bucket int, layout *Uint64MapLayout) (id uint64, tag Tag, length int, n int) {
+	var header uint64MapBucketHeader
+	n = header.Unmarshal(buffer, bucket, layout)
+	return header.ID, header.Tag, header.Length, n
+}
